@@ -187,6 +187,57 @@ pub fn threads(args: &[String]) {
     let _ = Nickname::new().prepare("a");
 }
 
+// stress <nthreads> <iterations> <cases-with-expected-file>: every line is "<case>\t<expected result>".  All threads start
+// together; each walks the case list in its OWN pseudo-random order (different inputs are in flight at the same moment, which
+// is what a racy cache keyed by a hash of the input needs in order to be poisoned), comparing every result with the expected
+// one; afterwards one thread re-evaluates every case sequentially (a poisoned cache keeps answering wrongly).
+// Prints "mismatch\t<phase>\t<thread>\t<case>\t<got>" lines (at most 50) and a final "count\t<calls>\t<mismatches>".
+pub fn stress(args: &[String]) {
+    let n: usize = args[0].parse().unwrap();
+    let iters: usize = args[1].parse().unwrap();
+    let text = std::fs::read_to_string(&args[2]).unwrap();
+    let cases: std::sync::Arc<Vec<(String, String)>> = std::sync::Arc::new(
+        text.lines().filter(|l| !l.is_empty()).map(|l| { let (a, b) = l.split_once('\t').unwrap(); (a.to_string(), b.to_string()) }).collect());
+    let barrier = std::sync::Arc::new(std::sync::Barrier::new(n));
+    let mut hs = vec![];
+    for t in 0..n {
+        let cases = cases.clone();
+        let barrier = barrier.clone();
+        hs.push(std::thread::spawn(move || {
+            let mut bad: Vec<String> = vec![];
+            let mut nbad = 0usize;
+            let mut x: u64 = 0x9E3779B97F4A7C15u64.wrapping_mul(t as u64 + 1) | 1;
+            barrier.wait();
+            for _ in 0..iters {
+                x ^= x << 13; x ^= x >> 7; x ^= x << 17;
+                let i = (x % cases.len() as u64) as usize;
+                let got = crate::ops::run_line(&cases[i].0);
+                if got != cases[i].1 {
+                    nbad += 1;
+                    if bad.len() < 4 { bad.push(format!("mismatch\tconcurrent\t{}\t{}\t{}", t, cases[i].0, got)); }
+                }
+            }
+            (bad, nbad)
+        }));
+    }
+    let mut total = 0usize;
+    let mut lines: Vec<String> = vec![];
+    for h in hs {
+        let (bad, nbad) = h.join().unwrap();
+        total += nbad;
+        lines.extend(bad);
+    }
+    for (c, e) in cases.iter() {
+        let got = crate::ops::run_line(c);
+        if &got != e {
+            total += 1;
+            if lines.len() < 50 { lines.push(format!("mismatch\tafterwards\t-\t{}\t{}", c, got)); }
+        }
+    }
+    for l in lines.iter().take(50) { println!("{}", l); }
+    println!("count\t{}\t{}", n * iters + cases.len(), total);
+}
+
 // c08sweep: for EVERY scalar value c and every profile: if enforce([c]) = Ok(e) then (1) no code point of e is
 // DISALLOWED/UNASSIGNED in the profile's own class (classified by the real get_value_from_char) and
 // (2) enforce(e) is Ok(e) or an error.  Prints counts and every anomaly ("forbidden"/"drift" lines).
